@@ -20,6 +20,13 @@ def _real_worker(case):
         m = C.build_model(case["content"], rng)
     except Exception as e:  # noqa: BLE001
         return [{"err": ["build:" + type(e).__name__]}] * len(case["queries"])
+    if case.get("pre_edit"):
+        # mutators applied through the public API BEFORE anything is asked; model and oracle get the content
+        # these edits amount to (`effective_content`)
+        try:
+            apply_edit(m, case["pre_edit"])
+        except Exception as e:  # noqa: BLE001
+            return [{"err": ["pre_edit:" + type(e).__name__]}] * len(case["queries"])
     out = []
     for q in case["queries"]:
         out.append(C.run_query(m, q))
@@ -56,6 +63,16 @@ def apply_edit(m, edit):
             m.update_reaction(name, fn=C._fn(payload))
         elif op == "update_reaction_st":
             m.update_reaction(name, stoichiometry={c: C._coef(cj) for c, cj in payload})
+        elif op == "make_variable_static":
+            m.make_variable_static(name)
+        elif op == "make_parameter_dynamic":
+            m.make_parameter_dynamic(name)
+        elif op == "update_data":
+            import pandas as pd
+
+            m.update_data(name, pd.Series([fexpr.to_float(Fraction(payload))]))
+        elif op == "remove_data":
+            m.remove_data(name)
         elif op == "update_derived":  # new function AND new argument list (possibly empty)
             m.update_derived(name, fn=C._fn(payload), args=list(payload["args"]))
         elif op == "update_reaction":
@@ -64,10 +81,17 @@ def apply_edit(m, edit):
             raise ValueError(op)
 
 
+def effective_content(case):
+    """the content the declared one amounts to after the `pre_edit` mutators"""
+    if not case.get("pre_edit"):
+        return case["content"]
+    return edited_content({"content": case["content"], "edit": case["pre_edit"]})
+
+
 def edited_content(case):
     import copy
 
-    c = copy.deepcopy(case["content"])
+    c = copy.deepcopy(effective_content(case))
     for op, name, payload in case["edit"]:
         if op in ("update_parameter", "update_parameters", "scale_parameter"):
             for kv in c["pars"]:
@@ -77,6 +101,26 @@ def edited_content(case):
             for kv in c["vars"]:
                 if kv[0] == name:
                     kv[1] = {"v": payload}
+        elif op == "make_variable_static":
+            # the variable leaves every stoichiometry and comes back as a parameter with the same (plain or
+            # assignment-defined) value
+            val = next(v for k, v in c["vars"] if k == name)
+            c["vars"] = [kv for kv in c["vars"] if kv[0] != name]
+            for _, r in c["rxns"]:
+                r["st"] = [e for e in r["st"] if e[0] != name]
+            for _, su in c["surs"]:
+                su["st"] = [[f, [e for e in st if e[0] != name]] for f, st in su["st"]]
+            c["pars"] = c["pars"] + [[name, val]]
+        elif op == "make_parameter_dynamic":
+            val = next(v for k, v in c["pars"] if k == name)
+            c["pars"] = [kv for kv in c["pars"] if kv[0] != name]
+            c["vars"] = c["vars"] + [[name, val]]
+        elif op == "update_data":
+            for kv in c.get("data", []):
+                if kv[0] == name:
+                    kv[1] = payload
+        elif op == "remove_data":
+            c["data"] = [kv for kv in c.get("data", []) if kv[0] != name]
         elif op == "update_derived_fn":
             for kv in c["derived"]:
                 if kv[0] == name:
@@ -117,9 +161,20 @@ def gen_edit(rng, content, n=(1, 3)):
             kinds += ["update_derived_fn"] * 2
         if content["rxns"]:
             kinds += ["update_reaction_fn"] * 2 + ["update_reaction_st"]
+        live_data = [k for k, _ in content.get("data", []) if ["remove_data", k, None] not in ops]
+        if live_data:
+            # data sets edited through the API: a new value; a removal (whatever names it is then missing)
+            kinds += ["update_data"] * 2 + ["remove_data"]
         if not kinds:
             break
         op = rng.choice(kinds)
+        if op == "update_data":
+            ops.append([op, rng.choice(live_data), str(rng.choice([1, 2, 4, 5]))])
+            continue
+        if op == "remove_data":
+            # last edit of the round: the harness' own scale_parameter reads the model, which a removal may break
+            ops.append([op, rng.choice(live_data), None])
+            break
         if op in ("update_parameter", "update_parameters", "scale_parameter"):
             ops.append([op, rng.choice(plain_p), str(rng.choice([1, 2, 4, 5]))])
         elif op == "update_variable":
@@ -138,7 +193,7 @@ def gen_edit(rng, content, n=(1, 3)):
 
 def _spec(case):
     out = []
-    for content in [case["content"]] + ([edited_content(case)] if case.get("edit") else []):
+    for content in [effective_content(case)] + ([edited_content(case)] if case.get("edit") else []):
         sp = C.Spec(content)
         for q in case["queries"]:
             try:
@@ -154,6 +209,13 @@ _pool = None
 def pool():
     global _pool
     if _pool is None:
+        # import the library (pandas, sympy, … behind it) ONCE in the parent: the forked workers inherit the
+        # loaded modules instead of each importing them again (16 concurrent cold imports cost ~40 s under load)
+        import mxlpy  # noqa: F401
+        from mxlpy.surrogates import qss  # noqa: F401
+        import pandas  # noqa: F401
+        from mxlpy import Simulator  # noqa: F401
+
         _pool = mp.get_context("fork").Pool(min(16, os.cpu_count() or 4))
     return _pool
 
@@ -177,12 +239,13 @@ def canon_R(q, r):
 
 def evaluate(cases, use_driver=True):
     """-> list of (R, M, S) lists per case (M is None when the driver is unavailable)"""
-    Rs = pool().map(_real_worker, cases, chunksize=8)
-    Ss = [_spec(c) for c in cases]
+    cs = max(1, min(64, len(cases) // 64))
+    Rs_async = pool().map_async(_real_worker, cases, chunksize=cs)
+    Ss_async = pool().map_async(_spec, cases, chunksize=cs)
     if use_driver:
         reqs, owner = [], []
         for i, c in enumerate(cases):
-            reqs.append({"op": "core", "content": c["content"], "queries": c["queries"]})
+            reqs.append({"op": "core", "content": effective_content(c), "queries": c["queries"]})
             owner.append(i)
             if c.get("edit"):
                 reqs.append({"op": "core", "content": edited_content(c), "queries": c["queries"]})
@@ -193,6 +256,8 @@ def evaluate(cases, use_driver=True):
             Ms[i] = Ms[i] + r
     else:
         Ms = [None] * len(cases)
+    # the Lean driver (one process) ran while the pool worked on the real code and the oracle
+    Rs, Ss = Rs_async.get(), Ss_async.get()
     out = []
     for c, R, M, S in zip(cases, Rs, Ms, Ss):
         qs = c["queries"] * (2 if c.get("edit") else 1)
@@ -202,7 +267,7 @@ def evaluate(cases, use_driver=True):
     return out
 
 
-def standard_queries(rng, content, n_states=2):
+def standard_queries(rng, content, n_states=2, flags=False):
     qs = [["init"], ["classes"], ["pvals"], ["args", None, "0"], ["rhs", None, "0"], ["fluxes", None, "0"]]
     for _ in range(n_states):
         st = C.gen_state(rng, content)
@@ -214,6 +279,21 @@ def standard_queries(rng, content, n_states=2):
         qs.append(["stoichvar", st, str(rng.choice([0, 1, 2, "1/2"])), rng.choice(touched)])
     times = rng.sample(["0", "1/2", "1", "2", "3"], rng.randint(1, 3))
     qs.append(["tc", [[t, C.gen_state(rng, content)] for t in sorted(times, key=lambda x: eval(x))]])
+    if flags:
+        # get_arg_names / get_args / get_args_time_course with the nine include_* flags (selection and order observable)
+        ro = bool(content.get("readouts"))
+        for _ in range(2):
+            fl = C.gen_flags(rng)
+            if ro and rng.random() < 0.6:
+                fl[8] = True
+            st = rng.choice([None, C.gen_state(rng, content)])
+            qs += [["argnames", fl], ["argsf", st, str(rng.choice([0, 1, 2, "1/2"])), fl]]
+        fl = C.gen_flags(rng)
+        if ro:
+            fl[8] = True
+        qs.append(["argsftc", [[t, C.gen_state(rng, content)] for t in sorted(rng.sample(["0", "1", "2"], 2))], fl])
+        # get_fluxes is get_args with its own flags
+        qs.append(["argsf", None, "0", [False, False, False, False, False, True, False, True, False]])
     return qs
 
 
@@ -223,17 +303,23 @@ def standard_queries(rng, content, n_states=2):
 def well_posed(case) -> bool:
     """the queries still talk about the content: states name exactly the variables, a per-variable
     stoichiometry query names a variable some stoichiometry mentions (shrinking must not leave that domain)"""
-    c = case["content"]
+    c0 = case["content"]
+    for op, name, _ in case.get("pre_edit") or []:
+        if op == "make_variable_static" and name not in [k for k, _ in c0.get("vars", [])]:
+            return False
+        if op == "make_parameter_dynamic" and name not in [k for k, _ in c0.get("pars", [])]:
+            return False
+    c = effective_content(case)
     vnames = [k for k, _ in c.get("vars", [])]
     touched = set(C.Spec(c).touched_vars())
     for q in case["queries"]:
-        if q[0] in ("args", "fluxes", "rhs", "stoich", "stoichvar") and q[1] is not None and [k for k, _ in q[1]] != vnames:
+        if q[0] in ("args", "argsf", "fluxes", "rhs", "stoich", "stoichvar") and q[1] is not None and [k for k, _ in q[1]] != vnames:
             return False
         if q[0] == "call" and len(q[2]) != len(vnames):
             return False
         if q[0] == "stoichvar" and q[3] not in touched:
             return False
-        if q[0] == "tc" and any([k for k, _ in st] != vnames for _, st in q[1]):
+        if q[0] in ("tc", "argsftc") and any([k for k, _ in st] != vnames for _, st in q[1]):
             return False
         if q[0] == "simupd" and any(k not in vnames for k, _ in q[1]):
             return False
